@@ -6,6 +6,8 @@ require github.com/TimothyStiles/poly v0.0.0
 
 require golang.org/x/tools v0.29.0
 
-require lukechampine.com/blake3 v1.0.0 // indirect
+require lukechampine.com/blake3 v1.0.0
+
+require github.com/mroth/weightedrand v0.2.1 // indirect
 
 replace github.com/TimothyStiles/poly => /repo
